@@ -114,7 +114,7 @@ def run(ctx, args):
                     with ambient(flt):
                         paths[name] = n.location_path
                 lp = paths["none"]
-                small = {"doc": str(root)[:300], "node": list(pos), "path": lp, "tree": kind}
+                small = {"doc": c06.safe_str(root), "node": list(pos), "path": lp, "tree": kind}
                 if len(set(paths.values())) != 1:
                     ctx.fail("location_path depends on the ambient filters", dict(small, paths=paths))
                 if not SHAPE.match(lp):
